@@ -104,6 +104,12 @@ func NewPebbleScanner(dbPath string, opts PebbleScannerOptions) (*PebbleScanner,
 		return nil, err
 	}
 
+	// Open exactly the location that was checked. The guard resolves the path physically
+	// (symlinks first, then ".."), whereas Pebble derives its file names with filepath.Join, which
+	// resolves ".." lexically: for a spelling such as "link/../db" the two name different
+	// directories, and a path the guard accepted could put its files somewhere it never looked at.
+	dbPath = absPath
+
 	if opts.MatchThreshold == 0 {
 		opts.MatchThreshold = 0.75
 	}
